@@ -103,7 +103,8 @@ def max_phase_gap(sample, data):
     data : `~thejoker.RVData`
     """
     phase = np.sort(data.phase(sample['P']))
-    phase = np.concatenate((phase, phase))
+    # close the circle: the arc from the last phase across 1 -> 0 to the first
+    phase = np.concatenate((phase, phase[:1] + 1))
     return (phase[1:] - phase[:-1]).max()
 
 
